@@ -15,6 +15,7 @@ Not decided: circuits outside the model families; name clashes with `sat`/`dif_*
 import itertools
 
 from ..core import AnalysisError
+from ..minieval import ModelRaise
 from ..pkgenv import Package
 from ..refmodel import RefBlackBox, RefCircuit, build, free_nodes, simulate
 from ..semantic import guarded, GATES2, assignments, deep_circuits, two_level_circuits
@@ -139,4 +140,13 @@ def run(chk):
         r = P.call(FILE, "miter", *args)
         n += 1
         chk.ob("C04.G.blackbox-guard", f"miter::blackbox in {name} argument", r[0] == "raise" and r[1] == "ValueError", file=FILE, func="miter", line=fi.node.lineno, fact={"result": str(r)[:120]}, expect="ValueError")
+    from ..stale import circuit_snapshot, stale_state_rule
+
+    def _call(c):
+        r = P.call(FILE, "miter", c)
+        if r[0] != "return":
+            raise ModelRaise(r[1], r[2] if len(r) > 2 else "")
+        return r[1]
+
+    stale_state_rule(chk, "C04.H.no-stale-state", _call, circuit_snapshot, FILE, "miter")
     chk.floor("miter evaluations", n, 100)
